@@ -46,6 +46,8 @@ Init == /\ objs = <<>> /\ active = <<>> /\ ignored = <<>> /\ attr = Pristine
 DeriveMsg(cls, mk) ==
     IF mk = "explicit" THEN [k |-> "explicit", t |-> "-", f |-> "-"]
     ELSE IF mk = "kwtemplate" THEN [k |-> "template", t |-> "kw", f |-> fmt]
+    \* a keyword template whose format spec itself contains a replacement field: '{x:>{w}}'
+    ELSE IF mk = "kwnested" THEN [k |-> "template", t |-> "kwn", f |-> fmt]
     ELSE [k |-> "template", t |-> attr[cls]["template"], f |-> fmt]
 NoMsg == [k |-> "none", t |-> "-", f |-> "-"]
 
@@ -79,7 +81,7 @@ Attach(o, i) == /\ active' = IF o.list = "active" THEN Append(active, i) ELSE ac
 
 Create(cls, mk, out, delay) ==
     /\ CanAct /\ Len(objs) < MaxObjs
-    /\ ~(mk = "explicit" /\ out = "MR") /\ ~(cls = "T" /\ out = "CR")
+    /\ ~(mk = "explicit" /\ out = "MR") /\ ~(cls = "T" /\ out = "CR") /\ ~(cls = "T" /\ mk = "kwnested")
     /\ delay => cls \in DelayCls
     /\ LET o0 == [cls |-> cls, mk |-> mk, out |-> out, status |-> "delayed", truth |-> FALSE,
                   list |-> "none", msg |-> NoMsg]
